@@ -584,6 +584,10 @@ def rule_k(R, ctx, rid="C16.k"):
 APPEND_ONLY_USERS = {
     "yrs::ids::IdRanges::insert_with": "pieces cut out of the sorted entry list in one left-to-right sweep",
     "yrs::ids::IdRanges::merge": "two-pointer sweep over two sorted lists: pieces are produced in ascending order",
+    # not users today; sweeps over the sorted entry list whose pieces ascend, so rewriting their raw appends with the helper is fine
+    "yrs::ids::IdRanges::intersect": "sweep over self's sorted entries against other's sorted entries: overlaps are produced in ascending order",
+    "yrs::ids::IdRanges::exclude": "sweep over self's sorted entries: surviving pieces are produced in ascending order",
+    "yrs::ids::IdRanges::remove": "one pass over the sorted entry list: kept pieces are produced in ascending order",
 }
 
 
